@@ -76,7 +76,7 @@ def cases(draw):
 
 
 def strategy(tier):
-    return st.one_of(cases(), cases(), cases(), cases(), imported_cases())
+    return st.one_of(cases(), cases(), cases(), cases(), imported_cases(), group_cases())
 
 
 def build(case):
@@ -135,6 +135,8 @@ class Stop(Exception):
 def evaluate(case):
     if case.get("kind") == "imported":
         return eval_imported(case)
+    if case.get("kind") == "group":
+        return eval_group(case)
     from textx import metamodel_from_str
     from textx.exceptions import TextXError, TextXSemanticError, TextXSyntaxError
     from textx.model import textxerror_wrap
@@ -320,3 +322,54 @@ def eval_imported(case):
         return out
     finally:
         shutil.rmtree(tmp, ignore_errors=True)
+
+
+# -- a match processor failing on a regular expression whose only group does not start the match ----------------------
+@st.composite
+def group_cases(draw):
+    return {"kind": "group", "n": draw(st.integers(1, 4)), "k": draw(st.integers(0, 3)),
+            "gaps": draw(st.lists(st.sampled_from([" ", "\n", "\n\n  ", "\t"]), min_size=8, max_size=8)),
+            "style": draw(st.sampled_from(["plain", "semantic", "valueerror"])), "use_group": draw(st.booleans())}
+
+
+def eval_group(case):
+    from textx import metamodel_from_str
+    from textx.exceptions import TextXError, TextXSemanticError
+
+    out = Outcome()
+    mm = metamodel_from_str("Model: items+=It;\nIt: 'it' v=Tag;\nTag: /<<<(\\w+)>>>/;\n", use_regexp_group=case["use_group"])
+    k = case["k"] % case["n"]
+    text, pos = "", None
+    for i in range(case["n"]):
+        text += case["gaps"][i % len(case["gaps"])] + "it" + case["gaps"][(i + 3) % len(case["gaps"])]
+        if i == k:
+            pos = len(text)
+        text += "<<<" + ("boom" if i == k else f"t{i}") + ">>>"
+    text += "\n"
+
+    def proc(v):
+        if "boom" in v:
+            if case["style"] == "semantic":
+                raise TextXSemanticError("rejected by the harness")
+            if case["style"] == "plain":
+                raise TextXError("rejected by the harness")
+            raise ValueError("rejected by the harness")
+        return v
+
+    mm.register_obj_processors({"Tag": proc})
+    el, ec = linecol(text, pos)
+    out.cls("kind:regexp_group", "use_regexp_group=" + str(case["use_group"]), "style:" + case["style"])
+    out.nontrivial = case["use_group"]
+    out.sample = {"text": text, "use_regexp_group": case["use_group"], "style": case["style"], "expected": [el, ec]}
+    try:
+        mm.model_from_str(text)
+        return out.add("group/no_error", str(out.sample))
+    except TextXError as e:
+        if (e.line, e.col) != (el, ec):
+            out.add("group/line_col" + ("/use_regexp_group" if case["use_group"] else ""),
+                    f"{out.sample}: error located at {(e.line, e.col)}")
+    except ValueError:
+        if case["style"] != "valueerror":
+            raise
+        out.cls("plain_exception_propagates")
+    return out
